@@ -173,6 +173,13 @@ Connect(c) ==
     /\ last' = NoReq
     /\ UNCHANGED <<usedNonces, live, oldTok, usedTokens, issuedAuth, db, nreq>>
 
+\* the client closes its connection
+Disconnect(c) ==
+    /\ alive[c]
+    /\ alive' = [alive EXCEPT ![c] = FALSE]
+    /\ last' = NoReq
+    /\ UNCHANGED <<authorized, nonce, nonceOld, usedNonces, live, oldTok, usedTokens, issuedAuth, how, db, nreq>>
+
 \* one round of the periodic two-phase expiry (expireTokens + expireNonces)
 Expire ==
     /\ live' = live \ oldTok
@@ -221,7 +228,7 @@ MCNext ==
        /\ Ids \ usedNonces # {} /\ Ids \ usedTokens # {}
        /\ \E c \in Conns, cmd \in Cmds : \E a \in ArgsFor(c, cmd) : \E r \in RespsFor(c, cmd) :
               Request(c, cmd, a, r)
-    \/ \E c \in Conns : Connect(c)
+    \/ \E c \in Conns : Connect(c) \/ Disconnect(c)
     \/ Expire
 
 Spec == Init /\ [][MCNext]_vars
